@@ -133,6 +133,9 @@ ATOMS: list[tuple[str, str]] = [
     ("Literal[1]", "Literal[1]"),
     ("Literal['a']", "Literal['a']"),
     ("Literal[True]", "Literal[True]"),
+    # literals whose VALUES compare equal across types (0 == False, 1 == True) and the other half of bool
+    ("Literal[0]", "Literal[0]"),
+    ("Literal[False]", "Literal[False]"),
     ("Literal[Color.RED]", "Literal[Color.RED]"),
     ("Color", "Color"),
     ("Type[B]", "Type[B]"),
@@ -187,7 +190,7 @@ CORE20 = ["object", "int", "bool", "float", "str", "None", "Never", "A", "B", "D
 # 20-type core for union simplification
 UNION_CORE = ["object", "int", "bool", "float", "str", "None", "Never", "A", "B", "D", "Co[B]", "PGen[B]",
               "tuple[int, str]", "tuple[int, ...]", "TDT", "Literal[1]", "Literal[True]", "Literal[Color.RED]",
-              "Color", "Callable[[int], str]"]
+              "Color", "Callable[[int], str]", "Literal[0]", "Literal[False]"]
 # cache-independence mode (iv): queries over these (core atoms + same-TypeInfo instances so that the
 # per-TypeInfo subtype caches are actually hit with related keys, incl. promotion-sensitive ones)
 CACHE_CORE = ["object", "int", "float", "None", "B", "D", "Co[B]", "Co[D]", "Co[int]", "Co[float]", "Inv[B]", "Inv[D]",
